@@ -139,8 +139,8 @@ def main_guard_ok(mod, file, names):
                 if (a.asname or a.name).split(".")[0] in names:
                     raise TranslateError(file, s, "module-level import rebinding `%s`" % (a.asname or a.name))
             continue
-        if isinstance(s, ast.FunctionDef) and s.name in names:
-            continue
+        if isinstance(s, ast.FunctionDef):
+            continue          # other helpers may exist; calling one from a translated function is refused at the call
         if isinstance(s, ast.If) and src_of(s) == "if __name__ == '__main__':\n    main()":
             continue
         if isinstance(s, ast.Expr) and isinstance(s.value, ast.Constant) and isinstance(s.value.value, str):
@@ -424,10 +424,22 @@ class MainTr(CliTr):
 
 
 def translate_extract(source):
-    """-> (coq text, info)"""
+    """-> dict(load_data=(text, facts) | TranslateError, main=(text, info) | TranslateError)"""
     mod = parse(source)
     main_guard_ok(mod, EXTRACT, {"load_data", "main"})
-    load_txt, facts = translate_load_data(mod, EXTRACT, source, "gx")
+    out = {}
+    try:
+        out["load_data"] = translate_load_data(mod, EXTRACT, source, "gx")
+    except TranslateError as e:
+        out["load_data"] = e
+    try:
+        out["main"] = _extract_main(mod, source)
+    except TranslateError as e:
+        out["main"] = e
+    return out
+
+
+def _extract_main(mod, source):
     fn = find_function(mod, EXTRACT, "main")
     sig = click_signature(fn, EXTRACT, "extract")
     want_option(sig, EXTRACT, fn, "variables", required=True, type=None, flag=False, has_default=False)
@@ -455,9 +467,9 @@ def translate_extract(source):
            "     after .split(','); temperature / pressure = the click.FLOAT options -T / -P (None when absent) *)\n"
            "  Definition gx_main (load_data : string -> option table) (variables : list string)\n"
            "    (temperature pressure : option F) : option oframe :=\n    %s.\n" % (EXTRACT, term.replace("\n", "\n    ")))
-    info = dict(facts=facts + tr.facts, loops=getattr(tr, "loops", []),
+    info = dict(facts=tr.facts, loops=getattr(tr, "loops", []),
                 options={k: dict(opts=v["opts"], default=v["default"], type=v["type"]) for k, v in sig.items()})
-    return load_txt + "\n" + txt, info
+    return txt, info
 
 
 # ==========================================================================================================
@@ -513,9 +525,22 @@ class GeoMainTr(MainTr):
 
 
 def translate_geotherm(source):
+    """-> dict(load_data=(text, facts) | TranslateError, main=(text, consts, info) | TranslateError)"""
     mod = parse(source)
     main_guard_ok(mod, GEOTHERM, {"load_data", "fit_data", "main"})
-    load_txt, facts = translate_load_data(mod, GEOTHERM, source, "gg")
+    out = {}
+    try:
+        out["load_data"] = translate_load_data(mod, GEOTHERM, source, "gg")
+    except TranslateError as e:
+        out["load_data"] = e
+    try:
+        out["main"] = _geotherm_main(mod, source)
+    except TranslateError as e:
+        out["main"] = e
+    return out
+
+
+def _geotherm_main(mod, source):
     # fit_data
     ff = find_function(mod, GEOTHERM, "fit_data")
     plain_params(ff, GEOTHERM, ["df"])
@@ -562,9 +587,9 @@ def translate_geotherm(source):
     consts = ("Definition gg_default_t_col : string := %s.   (* default of %s *)\n"
               "Definition gg_default_p_col : string := %s.   (* default of %s *)\n"
               % (coq_str(tcol["default"]), "/".join(tcol["opts"]), coq_str(pcol["default"]), "/".join(pcol["opts"])))
-    info = dict(facts=facts + ft.facts + tr.facts, loops=getattr(tr, "loops", []),
+    info = dict(facts=ft.facts + tr.facts, loops=getattr(tr, "loops", []),
                 options={k: dict(opts=v["opts"], default=v["default"], type=v["type"]) for k, v in sig.items()})
-    return load_txt + "\n" + fit_txt + "\n" + txt, consts, info
+    return fit_txt + "\n" + txt, consts, info
 
 
 GEN_HEADER = """(* GENERATED by tools/translate_cli.py from the current source tree - do not edit *)
@@ -576,30 +601,53 @@ Import ListNotations.
 """
 
 
-def gen_file(extract_txt, geo_txt, geo_consts):
+def gen_file(section_texts, tail_texts):
     out = [GEN_HEADER, "Section GenCli.", "  Context {F : Type} {OF : Ops F}.", "  Local Notation table := (@table F).",
            "  Local Notation frame := (@frame F).", "  Local Notation spline_t := (@spline_t F).",
            "  Local Notation oframe := (@oframe F).", "  Local Notation spline_obj := (@spline_obj F).", ""]
-    for t in (extract_txt, geo_txt):
-        if t:
-            out.append(t)
+    out += [t for t in section_texts if t]
     out.append("End GenCli.\n")
-    if geo_consts:
+    if any(tail_texts):
         out.append("Local Open Scope string_scope.")
-        out.append(geo_consts)
+        out += [t for t in tail_texts if t]
     return "\n".join(out)
+
+
+def translate_all(root):
+    """-> (Gen_cli.v text, errors {piece: message}, info {piece: ...}); pieces: extract.load_data, extract.main,
+    geotherm.load_data, geotherm.main"""
+    import os
+    sec, tail, errors, info = [], [], {}, {}
+    for key, file, fun in (("extract", EXTRACT, translate_extract), ("geotherm", GEOTHERM, translate_geotherm)):
+        try:
+            r = fun(open(os.path.join(str(root), file)).read())
+        except TranslateError as e:
+            errors[key + ".load_data"] = errors[key + ".main"] = "TranslateError: %s" % e
+            continue
+        except (SyntaxError, OSError, ValueError) as e:
+            errors[key + ".load_data"] = errors[key + ".main"] = "%s cannot be read/parsed: %r" % (file, e)
+            continue
+        for piece in ("load_data", "main"):
+            v = r[piece]
+            if isinstance(v, TranslateError):
+                errors["%s.%s" % (key, piece)] = "TranslateError: %s" % v
+                sec.append("  (* %s.%s: NOT TRANSLATED - %s *)\n" % (key, piece, str(v).replace("*)", "* )")))
+            elif piece == "load_data":
+                sec.append(v[0])
+                info["%s.%s" % (key, piece)] = dict(facts=v[1])
+            elif key == "extract":
+                sec.append(v[0])
+                info["%s.%s" % (key, piece)] = v[1]
+            else:
+                sec.append(v[0])
+                tail.append(v[1])
+                info["%s.%s" % (key, piece)] = v[2]
+    return gen_file(sec, tail), errors, info
 
 
 if __name__ == "__main__":
     import sys
-    root = sys.argv[1] if len(sys.argv) > 1 else "/repo"
-    ex = ge = gc = ""
-    try:
-        ex, info = translate_extract(open(root + "/" + EXTRACT).read())
-    except TranslateError as e:
-        print("(* ERROR extract: %s *)" % e)
-    try:
-        ge, gc, info = translate_geotherm(open(root + "/" + GEOTHERM).read())
-    except TranslateError as e:
-        print("(* ERROR geotherm: %s *)" % e)
-    print(gen_file(ex, ge, gc))
+    txt, errors, info = translate_all(sys.argv[1] if len(sys.argv) > 1 else "/repo")
+    for k, e in errors.items():
+        print("(* ERROR %s: %s *)" % (k, e))
+    print(txt)
